@@ -112,7 +112,7 @@ pub fn plans_for(prop: &str, thorough: bool) -> Vec<Plan> {
             });
             plans.push(Plan {
                 name: "F-TRIVIA(1) on F-STMT x call_parentheses x collapse x all widths",
-                cases: trivia_family(&stmt, if thorough { &[0, 1, 2, 3, 4] } else { &[0, 1] }),
+                cases: trivia_family(&stmt, if thorough { &[0, 1, 2, 3, 4, 5, 6] } else { &[0, 1, 5] }),
                 cfgs: cross(false, call_collapse),
                 widths: Widths::All,
                 ranges: Ranges::None,
@@ -130,7 +130,7 @@ pub fn plans_for(prop: &str, thorough: bool) -> Vec<Plan> {
             });
         }
         "C03" => {
-            let kinds: &[usize] = if thorough { &[0, 1, 2, 3, 4] } else { &[0, 1, 3] };
+            let kinds: &[usize] = if thorough { &[0, 1, 2, 3, 4, 5, 6] } else { &[0, 1, 3, 5] };
             plans.push(Plan {
                 name: "F-TRIVIA(1) on F-STMT x call_parentheses x collapse x all widths",
                 cases: trivia_family(&stmt, kinds),
